@@ -89,7 +89,7 @@ pub fn check(c: &Case, st: &mut Stats) -> CheckResult {
 pub fn run(ctx: &Ctx, rep: &mut Report) {
     rep.assume("only the object's own storage is observed (heap slot, ManuallyDrop::drop in place, volatile reads); copies made elsewhere by moves or by into_bytes(self) are outside the property as stated");
     rep.assume("reading the slot after drop_in_place is done through a raw pointer into memory the harness still owns (Box<ManuallyDrop<T>>), so the read is defined behaviour");
-    run_generated(ctx, rep, "drop_probe", ctx.n(3000, 60_000), strategy, check);
+    run_generated(ctx, rep, "drop_probe", ctx.n(20_000, 400_000), strategy, check);
 }
 
 pub fn replay(_ctx: &Ctx, sub: &str, case: &Value) -> Option<CheckResult> {
